@@ -55,6 +55,8 @@ def key20(e, A, B, clause):
         return "%s %s: operands of different shape (must answer false)" % (be, op)
     if be == "ndarray" and op == "dot" and A and B and A[2] == 1 and B[2] == 1 and (A[1] >= 2 or B[1] >= 2):
         return "ndarray dot: column-vector operands (Nx1)"
+    if be == "nalgebra" and op == "dot" and A and B and shape(A) != shape(B) and A[1] * A[2] == B[1] * B[2]:
+        return "nalgebra dot: row vector against column vector of the same length (panics)"
     if be == "ndarray" and op == "from_row_vector" and e.get("anat"):
         return "ndarray from_row_vector: vector derived from a natively constructed array (inverted axis: negative stride)"
     if be == "ndarray" and op == "unique" and e.get("anat"):
